@@ -113,7 +113,8 @@ def sweep(ck, dialect, cmd, n, glsl_ub_excluded=False, label=""):
             found = True
             if key in reported:
                 continue
-        reported.add(key)
+        if fid is None:      # a listed finding never hides a later unlisted violation of the same class
+            reported.add(key)
         ck.violation({"kind": dialect + "-changes-meaning", "finding": fid, "options": t, "result": r[:2000],
                       "wgsl": unq(s[1:-1]), "emitted": unq(texts[i][1:-1])[:6000] if i < len(texts) else None,
                       "shrunk": sh.get("%s %s" % (knob, cls)),
@@ -215,7 +216,8 @@ def expected_sweep(ck, dialect, cmd, n, args, sub, kind, how, empty_note=None):
         key = (":".join(shape.split(":")[1:4]), cls)
         if fid is None and key in reported:
             continue
-        reported.add(key)
+        if fid is None:      # a listed finding never hides a later unlisted violation of the same class
+            reported.add(key)
         ck.violation({"kind": kind, "finding": fid, "case": t,
                       "got": r[:1500], "expected_outp": e, "wgsl": unq(srcs[i][1:-1]),
                       "emitted": unq(texts[i][1:-1])[:6000] if i < len(texts) else None, "how": how},
